@@ -60,7 +60,7 @@ def parse_tla_seq(txt):
 
 
 # ---------------------------------------------------------------- history -> script
-def script_of(hist, rng, nmax=24, threads=(1, 2, 4), ienv=None, scale_for_equil=True, pert=None, track=True, matgen=None):
+def script_of(hist, rng, nmax=24, threads=(1, 2, 4), ienv=None, scale_for_equil=True, pert=None, track=True, matgen=None, symmetric=False):
     lines = []
     ps, rl, ms = ienv or (rng.choice([1, 2, 4, 8]), rng.choice([1, 2, 4]), rng.choice([2, 4, 8]))
     lines.append("ienv p1=%d p2=%d p3=%d" % (ps, rl, ms))
@@ -85,17 +85,23 @@ def script_of(hist, rng, nmax=24, threads=(1, 2, 4), ienv=None, scale_for_equil=
                 ln = ln.replace("n=%d" % n, "n=%d k=%d" % (k * k, k))
             if c.get("sing"):
                 ln += " zc=%d" % rng.randrange(0, 3)
+            if symmetric:     # full diagonal, strictly diagonally dominant by rows and columns, ordering on A'+A
+                ln = ln.replace("fulldiag=0", "fulldiag=1")
+                ln = " ".join(t for t in ln.split() if not t.startswith("vstyle=") and not t.startswith("scale=")) + " vstyle=1 scale=none"
+                if gen == "arrow" or gen == "banded" or gen == "grid" or gen == "random":
+                    pass
             lines.append(ln)
-            lines.append("permc order=%d" % rng.choice([-1, 0, 1, 2, 3]))
+            lines.append("permc order=%d" % (2 if symmetric else rng.choice([-1, 0, 1, 2, 3])))
         elif c["call"] == "vals":
             lines.append("vals seed=%d" % rng.randrange(1, 10 ** 6))
         elif c["call"] == "gssv":
             lines.append("gssv P=%d nrhs=%d pad=%d seed=%d" % (rng.choice(threads), rng.choice([0, 1, 2, 3]), rng.choice([0, 0, 3]), rng.randrange(1, 10 ** 6)))
         elif c["call"] == "gssvx":
             lw = {"sys": 0, "user": 16 << 20, "query": -1}[c["lw"]]
-            lines.append("gssvx P=%d fact=%s refact=%d usepr=%d trans=%s lwork=%d nrhs=%d pad=%d padx=%d seed=%d u=%s" % (
+            lines.append("gssvx P=%d fact=%s refact=%d usepr=%d trans=%s lwork=%d nrhs=%d pad=%d padx=%d seed=%d u=%s%s" % (
                 rng.choice(threads), c["fact"], int(c["refact"]), int(c["usepr"]), c["trans"], lw, rng.choice([1, 1, 2, 3]),
-                rng.choice([0, 0, 2]), rng.choice([0, 0, 1]), rng.randrange(1, 10 ** 6), rng.choice(["1.0", "1.0", "0.5", "0.1"])))
+                rng.choice([0, 0, 2]), rng.choice([0, 0, 1]), rng.randrange(1, 10 ** 6),
+                "0.0" if symmetric else rng.choice(["1.0", "1.0", "0.5", "0.1"]), " sym=1" if symmetric else ""))
         elif c["call"] == "destroy":
             lines.append("destroy")
     return "\n".join(lines) + "\n"
@@ -197,6 +203,8 @@ def diagnose(r):
             elif r["info"] in (0, r["n"] + 1):
                 chk("info=n+1 iff rcond<eps", (r["info"] == r["n"] + 1) == (r["rcondsmall"] == 1))
                 chk("perm_r bijection", r["permr"] == 1)
+                if r.get("sym") == 1 and r.get("u1000") == 0 and r["fact"] != "FACTORED":
+                    chk("diagonal pivots (perm_r = perm_c)", r.get("prpc") == 1)
                 if r["nrhs"] > 0 and 0 <= r["cond"] < 100000000:
                     chk("backward error of X (original system)", 0 <= r["omega"] <= 20000)
                     chk("berr truthful", r["berrdev"] <= 20000); chk("ferr dominates", r["ferrok"] <= 1000)
